@@ -18,7 +18,8 @@ const (
 func init() {
 	register(&Property{
 		ID: "C06",
-		Explain: "Static structural necessary conditions of last-write-wins resolution (clock skew, the set of reachable holders and convergence over time are NOT decided): " +
+		Explain: "(collected-versions-complete) while the versions of a key are collected, a version appended for a remote holder carries the entry that holder answered with (a holder that answered not-found is skipped, so read repair never writes to a holder that has just processed a Delete) and no expiry test hides a copy from the comparison; " +
+			"Static structural necessary conditions of last-write-wins resolution (clock skew, the set of reachable holders and convergence over time are NOT decided): " +
 			"(comparator) the less-function handed to sort.Slice touches the two versions only through Timestamp() and one comparison whose truth table over {older, equal, newer} puts the newer version first; the winner taken by the read and by the merge is element 0; " +
 			"(winner-flow) the entry returned by the quorum read is the winner's entry and the same winner is handed to readRepair together with the unsanitised version list (so an owner without a copy is repaired too); " +
 			"(read-repair) with ReadRepair enabled every value-returning path passes readRepair (no further gate); inside, a holder is skipped only when it has an entry with the winner's timestamp, the local branch writes under the fragment write lock, the remote branch ships winner.Encode(); " +
@@ -29,6 +30,7 @@ func init() {
 			c06ReadRepair(r)
 			c06Merge(r)
 			c09SanitizeKeepsVersions(r)
+			c06CollectedVersionsComplete(r)
 			c04ReplicaVerbatim(r)
 			c03PreviousOwners(r)
 			tableUpdateWritesVersion(r, "update-writes-version")
